@@ -103,7 +103,7 @@ Fixpoint exp (fuel : nat) (s : tspec) (t : nat) : out * list tr * nat :=
       | (Exc e, trk, ek) => (Exc e, above n t e trk ek, e) end
   end end.
 
-Definition expected (s : tspec) : out * list tr := let '(o, trs, _) := exp 100 s root_target in (o, trs).
+Definition expected (s : tspec) : out * list tr := let '(o, trs, _) := exp (S (tdepth s)) s root_target in (o, trs).
 
 (* ---------- exact comparison and a finite family of shapes for the bounded companion ---------- *)
 Fixpoint tr_same (fuel : nat) (a b : tr) : bool :=
